@@ -27,13 +27,16 @@ static void viol(const char *sig, const char *cs, const char *fmt, ...) {
 }
 
 /* ------------------------------------------------------------------ the fixed patterns and value sets */
-#define NPAT 3
+#define NPAT 4
 static int pat_n(int p) { return p == 0 ? 4 : p == 1 ? 5 : 4; }
 static int pat_bit(int p, int i, int j) {
     static const char *P0[4] = { "1101", "0110", "1011", "0101" };                   /* unsymmetric, needs pivoting choices */
     static const char *P1[5] = { "11001", "11100", "01110", "00111", "10011" };      /* cyclic band: two leaves, pipelining */
     static const char *P2[4] = { "1111", "1111", "1111", "1111" };                   /* dense */
-    return (p == 0 ? P0[i][j] : p == 1 ? P1[i][j] : P2[i][j]) == '1';
+    /* pattern 3 (added after seeded change C08/2 was missed): the NUMBER OF SUPERNODES depends on the pivots (4 with diagonal pivots, 2 with
+       the off-diagonal pivots of the generic value sets), so a refactorization with other values changes the supernode partition */
+    static const char *P3[4] = { "1001", "1110", "1010", "0001" };
+    return (p == 0 ? P0[i][j] : p == 1 ? P1[i][j] : p == 2 ? P2[i][j] : P3[i][j]) == '1';
 }
 /* value sets: 0 = diagonally dominant (diagonal pivots), 1 = generic (off-diagonal pivots), 2 = set 0 with the diagonal entry of the middle
    column made tiny (the old pivot fails the threshold half-way), 3 = set 1 scaled (same pivots as 1, different numbers) */
@@ -82,6 +85,7 @@ static int op_factor(hs_t *s, int v, int refact, int usepr, int P, char *msg, si
     s->have_lu = 1;
     char wm[300];
     int wf = wellformed(&s->L, &s->U, s->perm_r, s->perm_c, n, s->Ld, s->Ud, wm, sizeof wm);
+    if (!strcmp(PROP, "C09")) { G->judged++; if (wf) { char sig[64]; snprintf(sig, sizeof sig, "C09:wellformed:code%d:%s", wf, refact ? "refactor" : "first"); viol(sig, cs, "%s", wm); return 2; } }
     if (!strcmp(PROP, "C08")) {
         G->judged++;
         if (wf) { char sig[64]; snprintf(sig, sizeof sig, "C08:wellformed:code%d:%s", wf, refact ? "refactor" : "first"); viol(sig, cs, "%s", wm); return 2; }
